@@ -304,6 +304,10 @@ def modes(row):
 
 def monitor(sc, views, known_hit=None):
     res = []
+    if not sc.sessions:
+        # corpus / replay scenarios carry only the head lines
+        sc.sessions = {int(h.split()[1]): int(h.split()[2]) for h in sc.head if h.startswith("sess ")}
+        sc.nusers = len([h for h in sc.head if h.startswith("user ")])
     prev = px = None
     div = {}            # user -> name of the known stale-cache trigger that hit him since the topic was loaded
     ro_lost = False     # the owner is suspended and the topic was (re)loaded since: the read-only bit is gone (known finding)
@@ -373,10 +377,10 @@ def monitor(sc, views, known_hit=None):
             if not acked:
                 rejected_clean("publish")
             elif fault == "N":
-                n = int(kvs(mine[0])["seq"])
+                n = int(kvs(mine[0]).get("seq", "-1"))
                 m = v.msgs.get(n)
                 if m is None or m["content"] != str(args[1]) or m["frm"] != actor:
-                    res.append(("accepted-stored", k, "accepted message %d not stored as published: %s" % (n, m)))
+                    res.append(("accepted-stored", k, "accepted message (%s) not stored as published: %s" % (mine[0], m)))
         elif prev is not None and kind in ("pubme", "pubfnd"):
             if acked:
                 res.append(("publish-to-self-or-search-topic-accepted", k, "%s by session %d answered %s" % (kind, sid, mine[0])))
@@ -413,7 +417,10 @@ def monitor(sc, views, known_hit=None):
                 if kind == "setsub" and self_req and sid not in prev.csess:
                     if modes(v.subs.get(actor)) != modes(v.cusers.get(actor)):
                         div[actor] = "offline-setsub"
-                if fault != "N" and kind in ("sub", "setsub") and self_req and "O" in unhex(args[1] if kind == "sub" else args[2]):
+                pc = prev.cusers.get(actor)
+                if fault != "N" and kind in ("sub", "setsub") and self_req and "O" in unhex(args[1] if kind == "sub" else args[2]) \
+                        and pc is not None and "O" in pc["given"] and "O" not in pc["want"]:
+                    # a faulted acceptance of a pending ownership transfer (thisUserSub, ownerChange branch)
                     for u in (actor, prev.cache.get("owner")):
                         if modes(v.subs.get(u)) != modes(v.cusers.get(u)):
                             div[u] = "transfer-fault"
@@ -460,4 +467,4 @@ def run(ctx):
                  "the monitor takes the STORED subscription row as the definition of 'currently subscribed with W in both modes'; a failure of the iff is filed under a known finding only if the author's cached mode differs from the stored one AND one of the two named triggers hit that user since the topic was loaded (not-attached {set sub} of his own; faulted ownership-transfer request)",
                  "harness/overlay/server/zz_verif_c03x_test.go: the {del topic} of the owner is held inside adapter.TopicDelete by a memverif call hook (db/memverif/zz_hook.go) while publishes are dispatched and awaited; {acc status=susp} is sent by a root session; the driver's sessions are not in the session store, so suspension does not evict them (eviction on suspension and login refusal are C11's)",
                  "topic deletion is modelled for hub.topicUnreg case 1.1.1 only (owner, topic loaded, hard); other {del topic} requests are not issued"],
-        counts={"quick": 330, "thorough": 4000})
+        counts={"quick": 560, "thorough": 5000})
